@@ -1,2 +1,301 @@
-(* stub: replaced below *)
-From PV Require Import Model.Streamer.
+(* Props/C16.v — property C16: peer-to-peer messages round-trip through pack and parse for every message type,
+   and the packed bytes are the wire encoding of the fields.  Only statements; every proof is `exact <lemma>`.
+
+   Model   : Model/Streamer.v   (Streamer.parse_struct / stream_struct, the 16 field codecs, pack_from_data /
+             parse_from_data with the tuple / array conventions, PeerAddress / InvItem)
+   Spec    : Spec/WireC16.v     (declared types `wt`, wire forms `wire*`, the protocol's layout table)
+   Table   : Gen/GenMessages.v  (STANDARD_P2P_MESSAGES, regenerated from /repo on every run)
+
+   The transaction, block and block-header codecs (format characters T, B, z) belong to C07 / C14: they are
+   parameters here and enter only through the frame round-trip hypotheses frame_T / frame_B / frame_z.
+   post_unpack_merkleblock (the merkle-proof check, C14) is the parameter post_merkleblock: for merkleblock the
+   field-level round trip (pack, wire bytes, parse_message) is unconditional and parse_from_data is stated for
+   values on which the post-processing succeeds.  alert is covered for EVERY payload (the alert finding was
+   repaired in /repo: post_unpack_alert now sets alert_info = None when the payload is not a serialized alert). *)
+From PV Require Import Base.Bytes Base.Outcome Base.Varint Gen.GenMessages Model.Streamer Spec.WireC16
+  Proofs.StreamerP.
+Local Open Scope N_scope.
+
+(* ---- the regenerated layout table: a typo in /repo re-fails one of these ----------------------------------- *)
+(* every layout text reads as single registered characters or one-level arrays of them, prints back to itself,
+   message names and field names are distinct, the optional boolean 'O' is only ever a last field *)
+Theorem C16_table_well_formed : table_ok std_messages = true /\ layout_ok alert_layout = true.
+Proof. exact (conj std_table_ok std_alert_layout_ok). Qed.
+
+(* same messages, same order, same field types as the hand-written protocol table of Spec/WireC16.v *)
+Theorem C16_layouts_are_the_protocol_layouts : layouts_match std_messages protocol_layouts = true.
+Proof. exact std_layouts_match. Qed.
+
+(* the characters registered in network.message's streamer are exactly the sixteen codecs of the model *)
+Theorem C16_registered_characters : forall c, In c registered_chars <-> exists k, codec_of_char c = Some k.
+Proof. exact registered_chars_exact. Qed.
+
+Theorem C16_post_unpack_names : post_unpack_names = [str "alert"; str "merkleblock"].
+Proof. exact std_post_unpack_names. Qed.
+
+(* ---- helper objects --------------------------------------------------------------------------------------- *)
+(* PeerAddress: IPv4 (4 bytes -> ::ffff:a.b.c.d) and IPv6 (16 bytes) forms, everything else refused *)
+Theorem C16_peer_address_forms : forall (TxV BlockV HdrV : Type) (s : Z) (ip : bytes) (p : Z),
+  (length ip = 4%nat -> @mk_addr TxV BlockV HdrV ip4_header s ip p = Ret (VAddr s (ip4_header ++ ip) p)
+                        /\ length (ip4_header ++ ip) = 16%nat) /\
+  (length ip = 16%nat -> @mk_addr TxV BlockV HdrV ip4_header s ip p = Ret (VAddr s ip p)) /\
+  (length ip <> 4%nat -> length ip <> 16%nat -> @mk_addr TxV BlockV HdrV ip4_header s ip p = Raise E_ASSERT).
+Proof. exact (@peer_address_forms). Qed.
+
+Theorem C16_inv_item_forms : forall (TxV BlockV HdrV : Type) (t : Z) (d : bytes),
+  (length d = 32%nat -> (t = 1 \/ t = 2 \/ t = 3)%Z -> @mk_inv TxV BlockV HdrV inv_checked_types t d false = Ret (VInv t d)) /\
+  (length d = 32%nat -> @mk_inv TxV BlockV HdrV inv_checked_types t d true = Ret (VInv t d)) /\
+  (length d <> 32%nat -> forall dc, @mk_inv TxV BlockV HdrV inv_checked_types t d dc = Raise E_ASSERT).
+Proof. exact (@inv_item_forms). Qed.
+
+Section C16.
+Variables TxV BlockV HdrV : Type.
+Variable parse_T : parser TxV.
+Variable stream_T : TxV -> bytes.
+Variable parse_B : parser BlockV.
+Variable stream_B : BlockV -> bytes.
+Variable parse_z : parser HdrV.
+Variable stream_z : HdrV -> bytes.
+Variable header_of : BlockV -> HdrV.
+Variable ip4 : bytes.          (* the codec theorems hold for any IP4_HEADER / checked-type list *)
+Variable ict : list Z.
+Hypothesis frame_T : forall v rest, parse_T (stream_T v ++ rest) = Ret (v, rest).
+Hypothesis frame_B : forall v rest, parse_B (stream_B v ++ rest) = Ret (v, rest).
+Hypothesis frame_z : forall v rest, parse_z (stream_z v ++ rest) = Ret (v, rest).
+Variable post_merkleblock : list (bytes * pyval TxV BlockV HdrV) -> outcome (list (bytes * pyval TxV BlockV HdrV)).
+
+Notation pyv := (pyval TxV BlockV HdrV).
+Notation sc := (stream_codec stream_T stream_B stream_z header_of).
+Notation pc := (parse_codec parse_T parse_B parse_z ip4 ict).
+Notation ss := (stream_struct stream_T stream_B stream_z header_of).
+Notation ps := (parse_struct parse_T parse_B parse_z ip4 ict).
+Notation wire_ := (wire stream_T stream_B stream_z).
+Notation wire_tuple_ := (wire_tuple stream_T stream_B stream_z).
+Notation wire_message_ := (wire_message stream_T stream_B stream_z).
+Notation named L := (L TxV BlockV HdrV parse_T stream_T parse_B stream_B parse_z stream_z header_of ip4 ict
+                       frame_T frame_B frame_z) (only parsing).
+
+(* ---- per-codec frame round trips: value-range hypotheses explicit; `rest` is whatever follows on the wire -- *)
+(* all sixteen at once: a value of the declared type is written as its wire form and read back *)
+Theorem C16_codec_roundtrip_all : forall k (v : pyv) rest,
+  wt k v -> (k = CO -> v = VNone -> rest = []) ->
+  sc k v = Ret (wire_ k v) /\ pc k (wire_ k v ++ rest) = Ret (v, rest).
+Proof. exact (named codec_frame). Qed.
+
+Theorem C16_codec_roundtrip_I : forall (z : Z) rest, (0 <= z < 2 ^ 64)%Z ->
+  sc CI (VInt z) = Ret (compact_size (Z.to_N z)) /\ pc CI (compact_size (Z.to_N z) ++ rest) = Ret (VInt z, rest).
+Proof. exact (named rt_I). Qed.
+Theorem C16_codec_roundtrip_S : forall (b : bytes) rest, N.of_nat (length b) < 2 ^ 63 ->
+  sc CS (VBytes b) = Ret (compact_size (N.of_nat (length b)) ++ b) /\
+  pc CS ((compact_size (N.of_nat (length b)) ++ b) ++ rest) = Ret (VBytes b, rest).
+Proof. exact (named rt_S). Qed.
+Theorem C16_codec_roundtrip_h : forall (z : Z) rest, (0 <= z < 2 ^ 16)%Z ->
+  sc Ch (VInt z) = Ret (be_bytes 2 (Z.to_N z)) /\ pc Ch (be_bytes 2 (Z.to_N z) ++ rest) = Ret (VInt z, rest).
+Proof. exact (named rt_h). Qed.
+Theorem C16_codec_roundtrip_L : forall (z : Z) rest, (0 <= z < 2 ^ 32)%Z ->
+  sc CL (VInt z) = Ret (le_bytes 4 (Z.to_N z)) /\ pc CL (le_bytes 4 (Z.to_N z) ++ rest) = Ret (VInt z, rest).
+Proof. exact (named rt_L). Qed.
+Theorem C16_codec_roundtrip_Q : forall (z : Z) rest, (0 <= z < 2 ^ 64)%Z ->
+  sc CQ (VInt z) = Ret (le_bytes 8 (Z.to_N z)) /\ pc CQ (le_bytes 8 (Z.to_N z) ++ rest) = Ret (VInt z, rest).
+Proof. exact (named rt_Q). Qed.
+Theorem C16_codec_roundtrip_1 : forall (z : Z) rest, (0 <= z < 2 ^ 8)%Z ->
+  sc C1 (VInt z) = Ret (le_bytes 1 (Z.to_N z)) /\ pc C1 (le_bytes 1 (Z.to_N z) ++ rest) = Ret (VInt z, rest).
+Proof. exact (named rt_1). Qed.
+Theorem C16_codec_roundtrip_6 : forall (z : Z) rest, (0 <= z < 2 ^ 48)%Z ->
+  sc C6 (VInt z) = Ret (le_bytes 6 (Z.to_N z)) /\ pc C6 (le_bytes 6 (Z.to_N z) ++ rest) = Ret (VInt z, rest).
+Proof. exact (named rt_6). Qed.
+(* '#' : 32-byte hash, '@' : 16-byte address — the length hypothesis is what the proof forces ... *)
+Theorem C16_codec_roundtrip_hash : forall (b : bytes) rest, length b = 32%nat ->
+  sc CHash (VBytes b) = Ret b /\ pc CHash (b ++ rest) = Ret (VBytes b, rest).
+Proof. exact (named rt_hash). Qed.
+Theorem C16_codec_roundtrip_at : forall (b : bytes) rest, length b = 16%nat ->
+  sc CAt (VBytes b) = Ret b /\ pc CAt (b ++ rest) = Ret (VBytes b, rest).
+Proof. exact (named rt_at). Qed.
+(* ... and it is necessary: the code writes v[:n] and reads n bytes unchecked, so any other length does not come
+   back (a longer value is truncated, a shorter one swallows what follows) unless it is short and last *)
+Theorem C16_fixed_length_is_necessary : forall k n (b : bytes) rest,
+  (k = CHash /\ n = 32%nat) \/ (k = CAt /\ n = 16%nat) ->
+  sc k (VBytes b) = Ret (firstn n b) /\
+  (pc k (firstn n b ++ rest) = Ret (VBytes b, rest) -> length b = n \/ (rest = [] /\ (length b < n)%nat)).
+Proof. exact (named fixed_length_necessary). Qed.
+Theorem C16_codec_roundtrip_b : forall (b : bool) rest,
+  sc Cb (VBool b) = Ret [bool_byte b] /\ pc Cb (bool_byte b :: rest) = Ret (VBool b, rest).
+Proof. exact (named rt_b). Qed.
+(* PeerAddress: services u64 little-endian, 16 address bytes, port u16 in network order *)
+Theorem C16_codec_roundtrip_A : forall (s : Z) (ip : bytes) (p : Z) rest,
+  (0 <= s < 2 ^ 64)%Z -> length ip = 16%nat -> (0 <= p < 2 ^ 16)%Z ->
+  sc CA (VAddr s ip p) = Ret (le_bytes 8 (Z.to_N s) ++ ip ++ be_bytes 2 (Z.to_N p)) /\
+  pc CA ((le_bytes 8 (Z.to_N s) ++ ip ++ be_bytes 2 (Z.to_N p)) ++ rest) = Ret (VAddr s ip p, rest).
+Proof. exact (named rt_A). Qed.
+(* InvItem: type u32 little-endian, 32-byte hash *)
+Theorem C16_codec_roundtrip_v : forall (t : Z) (d : bytes) rest, (0 <= t < 2 ^ 32)%Z -> length d = 32%nat ->
+  sc Cv (VInv t d) = Ret (le_bytes 4 (Z.to_N t) ++ d) /\
+  pc Cv ((le_bytes 4 (Z.to_N t) ++ d) ++ rest) = Ret (VInv t d, rest).
+Proof. exact (named rt_v). Qed.
+Theorem C16_codec_roundtrip_T : forall (t : TxV) rest,
+  sc CT (VTx t) = Ret (stream_T t) /\ pc CT (stream_T t ++ rest) = Ret (VTx t, rest).
+Proof. exact (named rt_T). Qed.
+Theorem C16_codec_roundtrip_B : forall (b : BlockV) rest,
+  sc CB (VBlock b) = Ret (stream_B b) /\ pc CB (stream_B b ++ rest) = Ret (VBlock b, rest).
+Proof. exact (named rt_B). Qed.
+Theorem C16_codec_roundtrip_z : forall (h : HdrV) rest,
+  sc Cz (VHdr h) = Ret (stream_z h) /\ pc Cz (stream_z h ++ rest) = Ret (VHdr h, rest).
+Proof. exact (named rt_z). Qed.
+(* optional boolean: present = one byte; absent = no byte, which can only be read back at the end of the stream *)
+Theorem C16_codec_roundtrip_O_present : forall (b : bool) rest,
+  sc CO (VBool b) = Ret [bool_byte b] /\ pc CO (bool_byte b :: rest) = Ret (VBool b, rest).
+Proof. exact (named rt_O_present). Qed.
+Theorem C16_codec_roundtrip_O_absent : sc CO VNone = Ret [] /\ pc CO [] = Ret (VNone, []).
+Proof. exact (rt_O_absent TxV BlockV HdrV parse_T stream_T parse_B stream_B parse_z stream_z header_of ip4 ict). Qed.
+Theorem C16_O_absent_only_at_end : forall s r, pc CO s = Ret (VNone, r) -> s = [].
+Proof. exact (O_absent_only_at_end TxV BlockV HdrV parse_T parse_B parse_z ip4 ict). Qed.
+(* outside the declared type: the 6-byte codec takes any u64 and silently keeps the low 48 bits *)
+Theorem C16_six_byte_codec_truncates : forall (z : Z) rest, (0 <= z < 2 ^ 64)%Z ->
+  sc C6 (VInt z) = Ret (le_bytes 6 (Z.to_N z)) /\
+  pc C6 (le_bytes 6 (Z.to_N z) ++ rest) = Ret (VInt (z mod 2 ^ 48), rest).
+Proof. exact (named six_truncates). Qed.
+
+(* ---- struct round trip, by induction on the format ------------------------------------------------------------- *)
+Theorem C16_struct_roundtrip : forall ks (vs : list pyv),
+  Forall2 wt ks vs -> existsb (codec_eqb CO) ks = false ->
+  ss (map char_of ks) vs = Ret (wire_tuple_ ks vs) /\
+  forall rest n, (length ks <= n)%nat -> ps n (map char_of ks) (wire_tuple_ ks vs ++ rest) = Ret (vs, rest).
+Proof. exact (named tuple_frame). Qed.
+
+(* fuel = length of the format text always suffices, for every input (the data never consumes fuel) *)
+Theorem C16_parse_fuel_sufficient : forall layout data,
+  (forall s, parse_T s <> OutOfFuel) -> (forall s, parse_B s <> OutOfFuel) -> (forall s, parse_z s <> OutOfFuel) ->
+  parse_message parse_T parse_B parse_z ip4 ict layout data <> OutOfFuel.
+Proof. exact (parse_message_no_oof TxV BlockV HdrV parse_T parse_B parse_z ip4 ict). Qed.
+
+(* ---- every message of ANY table that passes table_ok ------------------------------------------------------------ *)
+Theorem C16_all_messages_generic : forall msgs, table_ok msgs = true ->
+  forall name layout, In (name, layout) msgs ->
+  exists fts, layout_ftypes layout = Some fts /\
+  forall (vals : list pyv) kwargs, Forall2 wt_field fts vals ->
+    (forall nm v, In (nm, v) (combine (map fst layout) vals) -> str_lookup kwargs nm = Some v) ->
+    pack_from_data stream_T stream_B stream_z header_of msgs name kwargs = Ret (wire_message_ fts vals) /\
+    parse_message parse_T parse_B parse_z ip4 ict layout (wire_message_ fts vals)
+      = Ret (combine (map fst layout) vals, []) /\
+    forall al post, name <> str "alert" -> name <> str "merkleblock" ->
+      parse_from_data parse_T parse_B parse_z ip4 ict msgs al post name (wire_message_ fts vals)
+        = Ret (combine (map fst layout) vals).
+Proof. exact (named all_messages_generic). Qed.
+End C16.
+
+Section C16_std.
+Variables TxV BlockV HdrV : Type.
+Variable parse_T : parser TxV.
+Variable stream_T : TxV -> bytes.
+Variable parse_B : parser BlockV.
+Variable stream_B : BlockV -> bytes.
+Variable parse_z : parser HdrV.
+Variable stream_z : HdrV -> bytes.
+Variable header_of : BlockV -> HdrV.
+Hypothesis frame_T : forall v rest, parse_T (stream_T v ++ rest) = Ret (v, rest).
+Hypothesis frame_B : forall v rest, parse_B (stream_B v ++ rest) = Ret (v, rest).
+Hypothesis frame_z : forall v rest, parse_z (stream_z v ++ rest) = Ret (v, rest).
+Variable post_merkleblock : list (bytes * pyval TxV BlockV HdrV) -> outcome (list (bytes * pyval TxV BlockV HdrV)).
+Notation pyv := (pyval TxV BlockV HdrV).
+(* network.message.pack / parse of the model, with the REGENERATED tables *)
+Notation std_pack := (pack_from_data stream_T stream_B stream_z header_of std_messages).
+Notation std_parse_message := (parse_message parse_T parse_B parse_z ip4_header inv_checked_types).
+Notation std_parse := (parse_from_data parse_T parse_B parse_z ip4_header inv_checked_types std_messages alert_layout post_merkleblock).
+Notation wire_message_ := (wire_message stream_T stream_B stream_z).
+
+(* C16, field level, all messages of the generated table, no exclusion:
+   for every (name, layout) of STANDARD_P2P_MESSAGES, every list of field values of the declared types
+   (`wt_field`: integer ranges, 32/16-byte strings, arrays below 2^64 elements of well-typed tuples ...) and any
+   keyword arguments that supply them (any order, extra keywords allowed):
+     pack = the wire encoding of the fields;
+     reading it back gives exactly those values under their field names, with NO byte left;
+     network.message.parse returns the same dict for every message without post-processing. *)
+Theorem C16_all_messages : forall name layout, In (name, layout) std_messages ->
+  exists fts, layout_ftypes layout = Some fts /\
+  forall (vals : list pyv) kwargs, Forall2 wt_field fts vals ->
+    (forall nm v, In (nm, v) (combine (map fst layout) vals) -> str_lookup kwargs nm = Some v) ->
+    std_pack name kwargs = Ret (wire_message_ fts vals) /\
+    std_parse_message layout (wire_message_ fts vals) = Ret (combine (map fst layout) vals, []) /\
+    (name <> str "alert" -> name <> str "merkleblock" ->
+      std_parse name (wire_message_ fts vals) = Ret (combine (map fst layout) vals)).
+Proof.
+  exact (std_all_messages TxV BlockV HdrV parse_T stream_T parse_B stream_B parse_z stream_z header_of
+           frame_T frame_B frame_z post_merkleblock).
+Qed.
+
+(* network.message.parse including the post-processing: alert for EVERY payload and signature (alert_info is
+   appended: the parsed sub-message or None), merkleblock for values on which post_unpack_merkleblock succeeds
+   and only appends keys (honest proofs, C14), every other message with nothing appended *)
+Theorem C16_parse_with_post_processing : forall name layout fts (vals : list pyv),
+  In (name, layout) std_messages -> layout_ftypes layout = Some fts -> Forall2 wt_field fts vals ->
+  (name = str "merkleblock" -> exists extra,
+      post_merkleblock (combine (map fst layout) vals) = Ret (combine (map fst layout) vals ++ extra)) ->
+  exists extra, std_parse name (wire_message_ fts vals) = Ret (combine (map fst layout) vals ++ extra).
+Proof.
+  exact (std_parse_from_data TxV BlockV HdrV parse_T stream_T parse_B stream_B parse_z stream_z header_of
+           frame_T frame_B frame_z post_merkleblock).
+Qed.
+End C16_std.
+
+Print Assumptions C16_table_well_formed.
+Print Assumptions C16_layouts_are_the_protocol_layouts.
+Print Assumptions C16_registered_characters.
+Print Assumptions C16_post_unpack_names.
+Print Assumptions C16_peer_address_forms.
+Print Assumptions C16_inv_item_forms.
+Print Assumptions C16_codec_roundtrip_all.
+Print Assumptions C16_codec_roundtrip_I.
+Print Assumptions C16_codec_roundtrip_S.
+Print Assumptions C16_codec_roundtrip_h.
+Print Assumptions C16_codec_roundtrip_L.
+Print Assumptions C16_codec_roundtrip_Q.
+Print Assumptions C16_codec_roundtrip_1.
+Print Assumptions C16_codec_roundtrip_6.
+Print Assumptions C16_codec_roundtrip_hash.
+Print Assumptions C16_codec_roundtrip_at.
+Print Assumptions C16_fixed_length_is_necessary.
+Print Assumptions C16_codec_roundtrip_b.
+Print Assumptions C16_codec_roundtrip_A.
+Print Assumptions C16_codec_roundtrip_v.
+Print Assumptions C16_codec_roundtrip_T.
+Print Assumptions C16_codec_roundtrip_B.
+Print Assumptions C16_codec_roundtrip_z.
+Print Assumptions C16_codec_roundtrip_O_present.
+Print Assumptions C16_codec_roundtrip_O_absent.
+Print Assumptions C16_O_absent_only_at_end.
+Print Assumptions C16_six_byte_codec_truncates.
+Print Assumptions C16_struct_roundtrip.
+Print Assumptions C16_parse_fuel_sufficient.
+Print Assumptions C16_all_messages_generic.
+Print Assumptions C16_all_messages.
+Print Assumptions C16_parse_with_post_processing.
+
+(* ---- non-vacuity ------------------------------------------------------------------------------------------------ *)
+(* the frame hypotheses are satisfiable (a one-byte codec) ... *)
+Example C16_frame_hypothesis_satisfiable :
+  exists (parse_X : parser bool) (stream_X : bool -> bytes),
+    forall v rest, parse_X (stream_X v ++ rest) = Ret (v, rest).
+Proof.
+  exists (fun s => match s with [] => Raise E_STRUCT | b :: r => Ret (negb (b2n b =? 0), r) end), (fun b => [bool_byte b]).
+  intros [] rest; reflexivity.
+Qed.
+
+(* ... and so are the value hypotheses: a version message with an IPv4 and an IPv6 peer, relay absent *)
+Definition ex_noparse : parser Empty_set := fun _ => Raise E_OTHER.
+Definition ex_nostream : Empty_set -> bytes := fun v => match v with end.
+Definition ex_version : list (pyval Empty_set Empty_set Empty_set) :=
+  [VInt 70015; VInt 1; VInt 1700000000; VAddr 1 (ip4_header ++ [x01; x02; x03; x04]) 8333;
+   VAddr 0 (repeatb xfe 16) 65535; VInt 18446744073709551615; VBytes (str "/pycoin/"); VInt 800000; VNone].
+Example C16_version_values_well_typed :
+  Forall2 wt_field [FOne CL; FOne CQ; FOne CQ; FOne CA; FOne CA; FOne CQ; FOne CS; FOne CL; FOne CO] ex_version.
+Proof. repeat constructor; cbn; unfold zrange; cbn; lia. Qed.
+Example C16_version_roundtrip_computed :
+  let names := map fst [(str "version", 0); (str "services", 0); (str "timestamp", 0); (str "remote_address", 0);
+                        (str "local_address", 0); (str "nonce", 0); (str "subversion", 0); (str "last_block_index", 0);
+                        (str "relay", 0)] in
+  exists bs,
+    pack_from_data ex_nostream ex_nostream ex_nostream (fun b => b) std_messages (str "version") (combine names ex_version) = Ret bs /\
+    length bs = 93%nat /\
+    parse_from_data ex_noparse ex_noparse ex_noparse ip4_header inv_checked_types std_messages alert_layout
+      (fun d => Ret d) (str "version") bs = Ret (combine names ex_version).
+Proof. vm_compute. eexists. split; [reflexivity|split; reflexivity]. Qed.
